@@ -22,10 +22,12 @@ ON = {"ODE": ["dyn_loss", "initial_condition", "observations"], "statio": ["dyn_
 PR = "jinns.parameters._params:"
 
 
-def batched(kind, K, B, grad_group=None, int_caller=False):
+def batched(kind, K, B, grad_group=None, int_caller=False, caller_has_batch_shape=False):
+    """caller_has_batch_shape: the caller's own value of the batched key 'a' already has the shape of a batch column
+    (a placeholder, or the batch of an earlier evaluation): the batch still decides"""
     K = tuple(K)
     def build():
-        S = Scen(kind, B=B)
+        S = Scen(kind, B=B, a_shape=(B, 1) if caller_has_batch_shape else ())
         terms = TERMS[kind]
         extra = [Inp("acol", (B, 1)), Inp("bcol", (B, 1))]
         names = S.names(mask_shape=(len(terms), 3), extra=extra)
@@ -76,6 +78,8 @@ def batched(kind, K, B, grad_group=None, int_caller=False):
     what = "terms" if grad_group is None else f"gradient[{grad_group}]"
     if int_caller:
         what += ".integer_typed_caller_value"
+    if caller_has_batch_shape:
+        what += ".caller_value_shaped_like_the_batch"
     return EqObligation(f"C12/{cls.split(':')[1]}/ensures.param_batch.{what}[{kind},K={'+'.join(K) or 'none'},B={B}]", build,
                         [cls, PR + "_update_eq_params_dict", PR + "_get_vmap_in_axes_params"])
 
@@ -108,7 +112,7 @@ class _CallableObject:
         return self.f(*a)
 
 
-def hetero(kind, declared, via, form="lambda"):
+def hetero(kind, declared, via, form="lambda", tmax=False):
     """declared: dict key -> 'h' | None ; keys absent are undeclared; form: how the callables are given
     (lambda | functools.partial | object with __call__) — any callable is a heterogeneity map"""
     def build():
@@ -127,9 +131,12 @@ def hetero(kind, declared, via, form="lambda"):
         wrap = {"lambda": (lambda f: f), "partial": (lambda f: functools.partial(f)), "object": _CallableObject}[form]
         het = {k: (wrap(mk(k)) if v == "h" else None) for k, v in declared.items()}
         S = Scen(kind, B=2, hetero=het)
-        names = S.names()
+        extra = [Inp("Tmax", (), "pos")] if tmax else []
+        names = S.names(extra=extra)
         def fn(*args):
             a = dict(zip(names, args))
+            if tmax:        # the time rescaling factor of the equation does not move the point the maps are evaluated at
+                S.dyn = eqx.tree_at(lambda d_: d_.Tmax, S.dyn0, a["Tmax"])
             if via == "loss":
                 loss, params, batch = S.loss_batch(a, on=ON[kind])
                 ts = loss.evaluate(params, batch)[1]
@@ -161,10 +168,11 @@ def hetero(kind, declared, via, form="lambda"):
             finally:
                 S1.B = old
             return arr(lambda _: sp["dyn_loss"] + (1 if wrong and not H else 0), ())
-        return dict(fn=fn, spec=spec, canary=lambda *z: spec(*z, wrong=True), inputs=S.inputs())
+        S.dyn0 = S.dyn
+        return dict(fn=fn, spec=spec, canary=lambda *z: spec(*z, wrong=True), inputs=S.inputs(extra=extra))
     dd = ",".join(f"{k}:{v}" for k, v in declared.items()) or "empty"
     wrap = {"ODE": "wrapper_ode", "statio": "wrapper_pde_statio", "nonstatio": "wrapper_pde_non_statio"}[kind]
-    return EqObligation(f"C12/DynamicLoss.evaluate/ensures.heterogeneity[{kind},declared={dd},via={via}{'' if form == 'lambda' else ',given_as=' + form}]", build,
+    return EqObligation(f"C12/DynamicLoss.evaluate/ensures.heterogeneity[{kind},declared={dd},via={via}{'' if form == 'lambda' else ',given_as=' + form}{',Tmax_symbolic' if tmax else ''}]", build,
                         ["jinns.loss._DynamicLossAbstract:_decorator_heteregeneous_params." + wrap,
                          "jinns.loss._DynamicLossAbstract:DynamicLoss._eval_heterogeneous_parameters"])
 
@@ -181,12 +189,15 @@ def obligations(tier):
         obs.append(batched(kind, ("b",), 2, grad_group="a"))
         obs.append(batched(kind, ("a",), 2, int_caller=True))
         obs.append(batched(kind, ("a", "b"), 2, int_caller=True))
+        obs.append(batched(kind, ("a",), 2, caller_has_batch_shape=True))
         obs.append(observed_and_batched(kind, 2))
         for declared in ({"a": "h"}, {"b": "h", "a": None}, {}, {"a": "h", "b": "h"}):
             obs.append(hetero(kind, declared, "evaluate"))
         obs.append(hetero(kind, {"a": "h"}, "loss"))
         obs.append(hetero(kind, {"a": "h", "b": None}, "evaluate", form="partial"))
         obs.append(hetero(kind, {"b": "h"}, "evaluate", form="object"))
+        obs.append(hetero(kind, {"a": "h", "b": "h"}, "evaluate", tmax=True))
+        obs.append(hetero(kind, {"a": "h"}, "loss", tmax=True))
     try:
         from contracts.c13 import c12_system_obligations
         obs += c12_system_obligations(tier)
